@@ -220,6 +220,49 @@ theorem run_c2c_count_end (t : Tol) (o : Oracle) (L e : ℚ) (n : ℕ) :
       simp only [body_c2c_count_end, c2cCountEnd, primsC2cCountEnd] <;> run_simp
     all_goals (cases hk : natOf ((n : ℚ) - 1)⁻¹ <;> simp [List.lookup, hk, *])
 
+/-! ### the functions handed to `brentq`: the validator `rootOK` is the residual of the *translated* function -/
+
+theorem solverFn_c2c_count_start {L s c : ℚ} {n : ℕ} (hs : s ≠ 0) (hc : c ≠ 1) :
+    solverFn (relEnv ⟨.c2c, .count, .start⟩ L n s) body_c2c_count_start c = .ok ((1 - c ^ n) / (1 - c) - L / s) := by
+  have h1 : (1 : ℚ) - c ≠ 0 := sub_ne_zero.mpr (Ne.symm hc)
+  simp [solverFn, brentqFn, findDefn, body_c2c_count_start, relEnv, evalE, PEnv.num, List.lookup, Q.name, bind,
+    Except.bind, pure, Except.pure, hs, h1]
+
+theorem solverFn_c2c_count_end {L e c : ℚ} {n : ℕ} (hn : n ≠ 0) (he : e ≠ 0) (hc : c ≠ 1) (hc0 : c ≠ 0) :
+    solverFn (relEnv ⟨.c2c, .count, .end_⟩ L n e) body_c2c_count_end c =
+      .ok (1 / c ^ (n - 1) * (1 - c ^ n) / (1 - c) - L / e) := by
+  have h1 : (1 : ℚ) - c ≠ 0 := sub_ne_zero.mpr (Ne.symm hc)
+  have hk := natOf_natCast_sub_one hn
+  have hp : c ^ (n - 1) ≠ 0 := pow_ne_zero _ hc0
+  simp [solverFn, brentqFn, findDefn, body_c2c_count_end, relEnv, evalE, PEnv.num, List.lookup, Q.name, bind,
+    Except.bind, pure, Except.pure, he, h1, hk, hp]
+
+/-- the residual of the geometric sum, scaled by the cell size -/
+theorem rootOK_start_resid {ε L s c : ℚ} {n : ℕ} (hs : s ≠ 0) (hc : c ≠ 1) :
+    rootOK ε s c L n = (decide (0 < c) && decide (absR (s * ((1 - c ^ n) / (1 - c) - L / s)) ≤ ε * L)) := by
+  have : s * gsum c n - L = s * ((1 - c ^ n) / (1 - c) - L / s) := by
+    rw [gsum, if_neg hc]; field_simp
+  rw [rootOK, this]
+
+theorem rootOK_end_resid {ε L e c : ℚ} {n : ℕ} (hn : n ≠ 0) (he : e ≠ 0) (hc : c ≠ 1) (hc0 : c ≠ 0) :
+    rootOK ε e (1 / c) L n =
+      (decide (0 < c) && decide (absR (e * (1 / c ^ (n - 1) * (1 - c ^ n) / (1 - c) - L / e)) ≤ ε * L)) := by
+  have h1 : (1 : ℚ) - c ≠ 0 := sub_ne_zero.mpr (Ne.symm hc)
+  have hci : (1 : ℚ) / c ≠ 1 := by
+    intro h; apply hc; field_simp at h; exact h.symm
+  have hpos : (0 < 1 / c) ↔ (0 < c) := one_div_pos
+  have hn' : n = (n - 1) + 1 := by omega
+  have : e * gsum (1 / c) n - L = e * (1 / c ^ (n - 1) * (1 - c ^ n) / (1 - c) - L / e) := by
+    rw [gsum, if_neg hci]
+    have h2 : (1 : ℚ) - 1 / c ≠ 0 := sub_ne_zero.mpr (Ne.symm hci)
+    have hp : c ^ (n - 1) ≠ 0 := pow_ne_zero _ hc0
+    have hpn : c ^ n = c ^ (n - 1) * c := by conv_lhs => rw [hn', pow_succ]
+    rw [one_div_pow, hpn]
+    field_simp
+    ring
+  rw [rootOK, this]
+  simp only [hpos]
+
 /-! ### the simple validators: their bodies do what `validateSem` says -/
 
 theorem validators_sem (P : Prims) (q : ℚ) :
